@@ -83,8 +83,9 @@ def run_units(pid, kunits, repo, verif, tier, work):
         if need_feat:
             s = open(lib).read()
             open(lib, "w").write(feature_line + s)
-        with open(lib, "a") as f:
-            for u in kunits:
+        for u in kunits:
+            tgt = os.path.join(d, u.get("inject_into", "src/lib.rs"))
+            with open(tgt, "a") as f:
                 f.write('\n#[cfg(kani)]\n#[path = "%s"]\nmod %s;\n' % (os.path.join(verif, "kani", u["file"]), u["mod"]))
         for u in kunits:
             for sp in u.get("splices", []):
@@ -110,7 +111,7 @@ def run_unit(pid, u, d, verif, tier):
     flags = ["-Z", "function-contracts", "-Z", "stubbing"] + u.get("flags", [])
     cmd = ["cargo", "kani"] + flags + ["--exact", "-j", str(u.get("jobs", 8)), "--output-format=terse"]
     for h in hs:
-        cmd += ["--harness", "%s::%s" % (u["mod"], h["name"])]
+        cmd += ["--harness", "%s%s::%s" % (u.get("mod_prefix", ""), u["mod"], h["name"])]
     timeout = u.get("timeout_thorough" if tier == "thorough" else "timeout", 900)
     res = dict(name=u["name"], cmd="CARGO_NET_OFFLINE=true " + " ".join(cmd) + "  (scratch copy of the working tree + kani/%s)" % u["file"],
                failed=[], harnesses=[], status="ok", reason="", checks_total=0, checks_ok=0,
@@ -133,7 +134,7 @@ def run_unit(pid, u, d, verif, tier):
     parsed = parse_output(text)
     res["wall_s"] = round(time.time() - t0, 1)
     for h in hs:
-        full = "%s::%s" % (u["mod"], h["name"])
+        full = "%s%s::%s" % (u.get("mod_prefix", ""), u["mod"], h["name"])
         r = None
         for k, v in parsed.items():
             if k.endswith(full) or k.endswith("::" + h["name"]):
